@@ -183,6 +183,7 @@ pub struct RunStats {
     pub clock_reads: u64,
     pub host_reads: u64,
     pub max_waiters: u64,
+    pub stmt_point_yields: u64,
 }
 
 struct St {
@@ -765,6 +766,7 @@ impl Env for Sim {
                 if !self.stmt_points_on() {
                     return;
                 }
+                self.lock_st().stats.stmt_point_yields += 1;
                 self.yield_point("stmt", crate::rng::Fnv::hash_str(name));
             } else {
                 self.yield_point(name, 0);
